@@ -240,6 +240,34 @@ def run(ck, P):
               "%s walks the list once, testing comparator and pointer identity on each node" % n if ok1 else
               "%s walks the list %d time(s) / tests the two criteria in different passes: with two comparator-equal elements the one returned (or removed, "
               "and destroyed) is not the first match in list order" % (n, len(walks)))
+    # find and remove agree on what "matches" means (R-SIBLING): the same set of per-node test conditions
+    def _tests(fn):
+        out = set()
+        for b_ in fn.blocks.values():
+            if b_.term and b_.term.get("cond") is not None and b_.id in fn.in_loop_blocks():
+                c_ = S(b_.term["cond"])
+                if "->userptr" in c_ or "->comp" in c_:
+                    out.add(re.sub(r"\b%s\b" % re.escape(fn.params[1]["name"]), "KEY", c_))
+        return out
+    tf, tr = _tests(P.fn("m_list_find", L)), _tests(P.fn("m_list_remove", L))
+    ck.ob("C12.3-ORDER", "%s:m_list_find/m_list_remove:same match predicate" % L, tf == tr and bool(tf),
+          "find and remove test each node with %s" % sorted(tf) if tf == tr else
+          "m_list_find tests %s but m_list_remove tests %s: remove takes out (and destroys) an element find would not have returned" % (sorted(tf), sorted(tr)))
+    # clear empties the container: the loop runs until it is empty, not for a count that shrinks while it is compared
+    for (unit_, fname, lenf) in ((ST, "m_stack_clear", "s->len"), (Q, "m_queue_clear", "q->len")):
+        f = P.fn(fname, unit_, required=False)
+        if f is None:
+            continue
+        ck.analysed(f)
+        loops_ = [(t_, h_, f.natural_loop(t_, h_)) for (t_, h_) in f.back_edges()]
+        conds = [S(f.blocks[b_].term["cond"]) for (_t, _h, body_) in loops_ for b_ in body_ if f.blocks[b_].term and f.blocks[b_].term.get("cond") is not None
+                 and any(s_ not in body_ for s_ in f.blocks[b_].succs if s_ is not None)]
+        ivs = {S(e.lhs) for (_t, _h, body_) in loops_ for b_ in body_ for e in f.blocks[b_].events if e.kind == "incdec" and strip(e.lhs)["k"] == "var"}
+        okc = bool(conds) and not any(re.search(r"\b%s\b" % re.escape(v), c_) for v in ivs for c_ in conds)
+        ck.ob("C12.3-ORDER", f.site("clear runs until empty"), okc or not loops_,
+              "%s loops while %s" % (fname, conds) if okc or not loops_ else
+              "%s counts with %s against a length that shrinks with every removal (%s): only part of the elements is removed" % (fname, sorted(ivs), conds))
+
     # iterator removal marks the position as removed on every path that removed something
     for (unit_, pre_) in ((Q, "m_queue"), (ST, "m_stack")):
         f = P.fn(pre_ + "_itr_remove", unit_)
